@@ -35,6 +35,7 @@ TAux     == {NoAux, 1, 3, 7}
 TKeysA   == {"al", "md", "tg", "ng", "sc"}
 TChainA  == <<"al", "md", "tg">>
 TChainNone == <<"tg">>
+TChainN  == <<"al", "md", "ng">>
 TZonesA  == {"p"}
 TParentA == [z \in TZonesA |-> "root"]
 TPubA    == {[z \in TZonesA |-> [present |-> TRUE, ns |-> 7, ds |-> NoDS, ver |-> 1]]}
